@@ -29,7 +29,7 @@ def run_one(m, tier, tests):
         if s.count(old) != 1:
             return (prop, name, "BADMUTANT", f"pattern occurs {s.count(old)} times")
         open(p, "w").write(s.replace(old, new))
-        env = dict(os.environ, RV_REPO=d)
+        env = dict(os.environ, RV_REPO=d, RV_EVIDENCE_DIR=os.path.join(d, "evidence"), RV_REPLAY_DIR=os.path.join(d, "replays"))
         env.pop("PYTHONPATH", None)
         t_ok = ""
         if tests:
